@@ -368,106 +368,125 @@ def which_component(cfg, base):
 
 
 def check_case(ctx, case, obs, report):
-    """Compare every run of one case with the plain call. report(key, what, extra) is called per violation kind.
-    Returns a dict of facts for book-keeping (lost source/target indices under reduction, counts)."""
-    facts = {"lost_src": set(), "lost_tgt": set(), "neigh": 0, "ties": 0, "runs": 0, "errors": 0}
+    """Compare the runs of one case: the reduce_data=True reference (segments=1, nprocs=1) against the plain call
+    (neighbour info mapped back to source indices + final arrays), every other run against the reference of the same
+    reduce_data flavour (raw arrays), and the two-step results against fresh calls.
+    report(key, what, extra) is called per violation. Returns facts for attribution / book-keeping."""
+    facts = {"lost_src": set(), "lost_tgt": set(), "neigh": 0, "ties": 0, "runs": 0, "errors": 0, "reduce_differs": False}
     if "driver_error" in obs or "geo_error" in obs:
         report("C03.driver", "driver could not build the case: %s" % (obs.get("driver_error") or obs.get("geo_error")), {})
         return facts
     runs = obs["runs"]
     base = runs[0]
-    binfo = {"info1": info_arrays(base["info1"]), "infok": info_arrays(base["infok"])}
-    bcanon = {}
-    for kk in ("info1", "infok"):
-        if binfo[kk] is None:
-            report("C03.plain_call", "the plain call get_neighbour_info fails: %s" % base[kk], {})
-            return facts
-        bcanon[kk], prob = canon_info(binfo[kk])
-        if prob:
-            report("C03.plain_call", prob, {})
-            return facts
-    facts["neigh"] = sum(len(x) for x in bcanon["infok"])
-    bfresh = [{t: dec_fl(v) for t, v in d.items()} if d else None for d in base["fresh"]]
-    cls = case["tag"]
-    same_reduce_ref = {False: (base["cfg"], binfo)}
+    refs = {}                      # reduce flag -> (run, infos, canon, fresh)
     for run in runs:
         cfg = run["cfg"]
         facts["runs"] += 1
         name = cfg_name(cfg)
         infos = {"info1": info_arrays(run["info1"]), "infok": info_arrays(run["infok"])}
-        comp = which_component(cfg, base["cfg"])
+        fresh = [{t: dec_fl(v) for t, v in d.items()} if d else None for d in run["fresh"]]
+        is_ref = cfg["reduce"] not in refs
+        if is_ref:
+            canon = {}
+            for kk in ("info1", "infok"):
+                if infos[kk] is None:
+                    canon[kk] = None
+                    continue
+                canon[kk], prob = canon_info(infos[kk])
+                if prob:
+                    report("C03.reduce.info_shape" if cfg["reduce"] else "C03.plain_call", "%s: %s" % (name, prob), {"config": cfg})
+                    canon[kk] = None
+            refs[cfg["reduce"]] = (run, infos, canon, fresh)
+            if not cfg["reduce"]:
+                if canon["info1"] is None or canon["infok"] is None:
+                    report("C03.plain_call", "the plain call fails: %s %s" % (run["info1"].get("error"), run["infok"].get("error")), {})
+                    return facts
+                facts["neigh"] = sum(len(x) for x in canon["infok"])
+        rrun, rinfo, rcanon, rfresh = refs[cfg["reduce"]]
+        rcfg = rrun["cfg"]
+        comp = "reduce" if is_ref else which_component(cfg, rcfg)
+        thin_cls = case["tag"] == "thin"
         # -- neighbour info
         for kk in ("info1", "infok"):
             if infos[kk] is None:
                 facts["errors"] += 1
                 e = run[kk]
-                thin = "0-d" in e.get("msg", "") and cfg["reduce"]
-                report("C03.reduce.thin_target_crash" if thin else "C03.%s.error" % comp,
-                       "get_neighbour_info(%s) raises %s(%s) where the plain call returns" % (name, e["error"], e.get("msg", "")),
-                       {"config": cfg, "stage": kk})
+                if is_ref or rinfo[kk] is not None:
+                    thin = "0-d" in e.get("msg", "") and cfg["reduce"] and thin_cls
+                    report("C03.reduce.thin_target_crash" if thin else "C03.%s.error" % comp,
+                           "get_neighbour_info(%s) raises %s(%s) where %s returns" % (
+                               name, e["error"], e.get("msg", ""), "the plain call" if is_ref else cfg_name(rcfg)),
+                           {"config": cfg, "stage": kk})
                 continue
-            if cfg["reduce"] not in same_reduce_ref:
-                same_reduce_ref[cfg["reduce"]] = (cfg, infos)
-            rcfg, rinfo = same_reduce_ref[cfg["reduce"]]
-            if rinfo[kk] is not None and not raw_equal(infos[kk], rinfo[kk]):
-                c2 = which_component(cfg, rcfg)
-                report("C03.%s.info" % c2, "neighbour info (%s) of %s differs from %s" % (kk, name, cfg_name(rcfg)),
-                       {"config": cfg, "reference": rcfg, "stage": kk})
-            can, prob = canon_info(infos[kk])
-            if prob:
-                report("C03.%s.info_shape" % comp, "%s: %s" % (name, prob), {"config": cfg})
+            if not is_ref:
+                if rinfo[kk] is not None and not raw_equal(infos[kk], rinfo[kk]):
+                    report("C03.%s.info" % comp, "neighbour info (%s) of %s differs from that of %s" % (kk, name, cfg_name(rcfg)),
+                           {"config": cfg, "reference": rcfg, "stage": kk})
                 continue
-            if can != bcanon[kk]:
-                if only_ties(can, bcanon[kk]):
-                    facts["ties"] += 1
+            if not cfg["reduce"]:
+                continue
+            # the reduce_data=True reference against the plain call, through the original source indices
+            bcan = refs[False][2][kk]
+            can = rcanon[kk]
+            if can is None or can == bcan:
+                continue
+            if only_ties(can, bcan):
+                facts["ties"] += 1
+                continue
+            facts["reduce_differs"] = True
+            kept = infos[kk]["vii"].astype(bool).ravel()
+            voi = infos[kk]["voi"].astype(bool).ravel()
+            for tt, (x, y) in enumerate(zip(can, bcan)):
+                if x != y:
+                    for s, _ in y:
+                        if not kept[s]:
+                            facts["lost_src"].add(s)
+                    if y and not voi[tt]:
+                        facts["lost_tgt"].add(tt)
+            t, got, want = first_diff(can, bcan)
+            report("C03.reduce.neighbours", "%s: target pixel %d gets neighbours %s, the plain call gets %s (source index, distance)" % (
+                name, t, list(got), list(want)),
+                {"config": cfg, "stage": kk, "target_pixel": t, "got": list(got), "want": list(want)})
+        # -- final arrays of fresh calls: reference vs plain call, others vs their reference
+        want_fresh = refs[False][3] if is_ref else rfresh
+        if not (is_ref and not cfg["reduce"]):
+            for di, d in enumerate(fresh):
+                if d is None or want_fresh[di] is None:
                     continue
-                t, got, want = first_diff(can, bcanon[kk])
-                if cfg["reduce"]:
-                    kept = infos[kk]["vii"].astype(bool).ravel()
-                    voi = infos[kk]["voi"].astype(bool).ravel()
-                    for tt, (x, y) in enumerate(zip(can, bcanon[kk])):
-                        if x != y:
-                            for s, _ in y:
-                                if not kept[s]:
-                                    facts["lost_src"].add(s)
-                            if y and not voi[tt]:
-                                facts["lost_tgt"].add(tt)
-                report("C03.%s.neighbours" % comp,
-                       "%s: target pixel %d gets neighbours %s, the plain call gets %s (source index, distance)" % (name, t, list(got), list(want)),
-                       {"config": cfg, "stage": kk, "target_pixel": t, "got": list(got), "want": list(want)})
-        # -- final arrays of fresh calls against the plain call
-        for di, d in enumerate(run["fresh"]):
-            if d is None or bfresh[di] is None:
-                continue
-            for typ, v in d.items():
-                got = dec_fl(v)
-                if not same_fl(got, bfresh[di][typ]):
+                for typ, got in d.items():
+                    want = want_fresh[di].get(typ)
+                    if want is None or same_fl(got, want):
+                        continue
                     if isinstance(got[0], str):
-                        thin = "0-d" in got[2] and cfg["reduce"]
-                        report("C03.reduce.thin_target_crash" if thin else "C03.%s.error" % comp,
-                               "resample_%s(%s) raises %s(%s) where the plain call returns an array" % (typ, name, got[1], got[2]),
-                               {"config": cfg, "type": typ, "dataset": di})
+                        thin = "0-d" in got[2] and cfg["reduce"] and thin_cls
+                        if is_ref or not isinstance(want[0], str):
+                            report("C03.reduce.thin_target_crash" if thin else "C03.%s.error" % comp,
+                                   "resample_%s(%s) raises %s(%s) where %s returns an array" % (
+                                       typ, name, got[1], got[2], "the plain call" if is_ref else cfg_name(rcfg)),
+                                   {"config": cfg, "type": typ, "dataset": di})
                     else:
-                        report("C03.%s.result" % comp, "resample %s (%s) on dataset %d differs from the plain call%s" % (
-                            typ, name, di, describe_diff(got, bfresh[di][typ])), {"config": cfg, "type": typ, "dataset": di})
-        # -- two-step: info computed once, applied to every dataset, against fresh calls
+                        if is_ref and facts["ties"] and not facts["reduce_differs"]:
+                            continue
+                        if is_ref:
+                            facts["reduce_differs"] = True
+                        report("C03.%s.result" % comp, "resample %s (%s) on dataset %d differs from %s%s" % (
+                            typ, name, di, "the plain call" if is_ref else cfg_name(rcfg), describe_diff(got, want)),
+                            {"config": cfg, "type": typ, "dataset": di})
+        # -- two-step: info computed once and applied to every dataset, against fresh calls of the same configuration
+        #    (or, where no fresh call was made for that dataset, of the reference configuration)
         for di, d in enumerate(run["two_step"]):
             if d is None:
                 continue
-            ref = run["fresh"][di] if run["fresh"][di] is not None else None
+            ref = fresh[di] if fresh[di] is not None else rfresh[di]
+            if ref is None:
+                continue
             for typ, v in d.items():
                 got = dec_fl(v)
-                want = dec_fl(ref[typ]) if ref is not None else (bfresh[di][typ] if bfresh[di] is not None else None)
-                if want is None:
+                want = ref.get(typ)
+                if want is None or same_fl(got, want):
                     continue
-                if ref is None and isinstance(want[0], str):
-                    continue
-                if not same_fl(got, want):
-                    if ref is None and (facts["lost_src"] or facts["lost_tgt"] or facts["errors"]):
-                        continue        # already reported as a reduction loss on this case
-                    report("C03.two_step", "get_sample_from_neighbour_info(%s, %s) on dataset %d differs from the %s call%s" % (
-                        typ, name, di, "fresh" if ref is not None else "plain", describe_diff(got, want)),
-                        {"config": cfg, "type": typ, "dataset": di})
+                report("C03.two_step", "get_sample_from_neighbour_info(%s, %s) on dataset %d differs from the fresh resample call%s" % (
+                    typ, name, di, describe_diff(got, want)), {"config": cfg, "type": typ, "dataset": di})
     return facts
 
 
